@@ -173,7 +173,7 @@ Lemma first_byte_spec inp ffuel : forall fuel r ln,
       fa_first_byte fuel ffuel r ln = (r1, FbSome ln' (pos' - pbyte r1) b) /\
       Win inp ffuel r1 (pbyte r1) /\ EofKnown inp r1 /\
       pbyte r1 <= pos' /\ pos' - pbyte r1 < length (buf r1) /\ nth_error inp pos' = Some b /\
-      cap r1 = cap r /\ start r1 = start r /\ seqpos r1 = seqpos r /\ pline r1 = pline r /\
+      cap r1 = cap r /\ start r1 = start r /\ seqpos r1 = seqpos r /\
       spos r1 = spos r /\ st r1 = st r /\ polf r1 = polf r /\ polh r1 = polh r /\
       only_reads (log r) (log r1)
   | inr _ => exists r1, fa_first_byte fuel ffuel r ln = (r1, FbNone)
@@ -227,39 +227,39 @@ Proof.
       destruct Happ as (H1 & H2 & H3 & H4 & H5 & H6).
       set (consumed := pos' - 1 - last).
       assert (Hcons : consumed = length b1 - last) by (unfold consumed; lia).
-      set (r2 := set_pbyte (set_buf r1 (skipn consumed b1)) (pbyte r + consumed)).
+      set (r2 := set_pline (set_pbyte (set_buf r1 (skipn consumed b1)) (pbyte r + consumed)) (ln' - 1)).
       assert (Hb2 : buf r2 = window inp (pbyte r + consumed) e').
-      { unfold r2, r1; cbn [buf set_pbyte set_log set_src set_buf]. unfold b1.
+      { unfold r2, r1; cbn [buf set_pline set_pbyte set_log set_src set_buf]. unfold b1.
         apply window_skipn. lia. }
       assert (Hb2' : buf r2 = repeat CR last).
-      { unfold r2, r1; cbn [buf set_pbyte set_log set_src set_buf]. rewrite Hcons. exact H5. }
+      { unfold r2, r1; cbn [buf set_pline set_pbyte set_log set_src set_buf]. rewrite Hcons. exact H5. }
       assert (W2 : Win inp ffuel r2 (pbyte r2)).
       { constructor; rewrite ?Hb2', ?repeat_length;
-          unfold r2, r1; cbn [buf src cap pbyte set_pbyte set_log set_src set_buf];
+          unfold r2, r1; cbn [buf src cap pbyte set_pline set_pbyte set_log set_src set_buf];
           rewrite ?Hps'; auto; try (unfold e'; lia).
         rewrite <- Hb2'. exact Hb2. }
       specialize (IH r2 (ln' - 1) W2).
       assert (Hsk2 : skipn (pbyte r2) inp = repeat CR last ++ skipn e' inp).
-      { rewrite <- Hb2', Hb2. unfold r2, r1; cbn [pbyte set_pbyte set_log set_src set_buf].
+      { rewrite <- Hb2', Hb2. unfold r2, r1; cbn [pbyte set_pline set_pbyte set_log set_src set_buf].
         rewrite <- (window_to_end inp (pbyte r + consumed) (length inp)) by lia.
         rewrite <- (window_to_end inp e' (length inp)) by lia.
         symmetry. apply window_app; unfold e'; lia. }
       rewrite Hsk2 in IH.
       rewrite H6, <- fb_direct_shift_n with (n := length (repeat CR last ++ skipn e' inp)) by apply le_n.
       replace (0 + (length b1 - last) + pbyte r) with (pbyte r2)
-        by (unfold r2, r1; cbn [pbyte set_pbyte set_log set_src set_buf]; lia).
+        by (unfold r2, r1; cbn [pbyte set_pline set_pbyte set_log set_src set_buf]; lia).
       fold consumed. fold r2.
       match type of IH with ?A -> ?B -> ?C -> _ =>
         assert (HA : A); [|assert (HB : B); [|assert (HC : C); [|specialize (IH HA HB HC)]]] end.
-      { unfold r2, r1; cbn [cap set_pbyte set_log set_src set_buf]. exact Hcap. }
+      { unfold r2, r1; cbn [cap set_pline set_pbyte set_log set_src set_buf]. exact Hcap. }
       { exists last. split; [exact H1|exact Hb2']. }
-      { unfold r2, r1; cbn [src set_pbyte set_log set_src set_buf]. rewrite Hps'. lia. }
+      { unfold r2, r1; cbn [src set_pline set_pbyte set_log set_src set_buf]. rewrite Hps'. lia. }
       destruct (fb_direct (repeat CR last ++ skipn e' inp) (ln' - 1) (pbyte r2)) as [[[ln2 pos2] b2]|?].
-      * destruct IH as (r3 & Heq & W3 & He3 & Hp3 & Hlt3 & Hnth3 & Hc3 & Hs3 & Hsq3 & Hpl3 & Hsp3 & Hst3
+      * destruct IH as (r3 & Heq & W3 & He3 & Hp3 & Hlt3 & Hnth3 & Hc3 & Hs3 & Hsq3 & Hsp3 & Hst3
                         & Hpf3 & Hph3 & Hor3).
         exists r3. split; [exact Heq|].
-        unfold r2, r1 in Hc3, Hs3, Hsq3, Hpl3, Hsp3, Hst3, Hpf3, Hph3, Hor3.
-        cbn [cap start seqpos pline spos st polf polh log set_pbyte set_log set_src set_buf] in *.
+        unfold r2, r1 in Hc3, Hs3, Hsq3, Hsp3, Hst3, Hpf3, Hph3, Hor3.
+        cbn [cap start seqpos pline spos st polf polh log set_pline set_pbyte set_log set_src set_buf] in *.
         splits; auto. eapply only_reads_trans; eassumption.
       * exact IH.
 Qed.
@@ -291,9 +291,9 @@ Proof.
   { unfold r0, fa_new; cbn [src s_pos]. lia. }
   unfold fa_ostart_of. rewrite fb_scan_direct.
   change (pbyte r0) with 0 in H. cbn [skipn] in H.
-  unfold fa_init.
+  unfold fa_init. change (pline r0) with 0.
   destruct (fb_direct inp 0 0) as [[[ln pos] b]|?].
-  - destruct H as (r1 & Heq & W1 & He1 & Hp1 & Hlt1 & Hnth1 & Hc1 & Hs1 & Hsq1 & Hpl1 & Hsp1 & Hst1
+  - destruct H as (r1 & Heq & W1 & He1 & Hp1 & Hlt1 & Hnth1 & Hc1 & Hs1 & Hsq1 & Hsp1 & Hst1
                    & Hpf1 & Hph1 & Hor1).
     rewrite Heq. destruct (b =? GT) eqn:Eb.
     + apply Nat.eqb_eq in Eb. subst b.
